@@ -262,15 +262,19 @@ func runC09(cfg Config) {
 			}
 		}
 		line := c.line(ops, fail)
-		got := implIpOps(line)
+		got := timed(implIpOps, line)
 		rep.Compare(m, line, implIpOps, nil)
 		kind := "ip"
 		if fuseMode {
 			kind = "fuse"
 		}
 		rep.Count(line, nch >= 2 && nops >= 2, kind, "chunks:"+bucket(nch), fmt.Sprintf("fail:%v", len(fail) > 0))
-		if got == "panic" {
+		if strings.Contains(got, "panic") {
 			monitor("reader panicked", line, got)
+			continue
+		}
+		if strings.HasPrefix(got, "hang") {
+			monitor("reader did not return", line, got)
 			continue
 		}
 		// monitor: replay the ops against the blob
